@@ -21,7 +21,7 @@ EXPLANATION = (
     'asserts, catalogued library calls and the implicit raise sites found by the buffer rules R4.  R2 no unbounded '
     'recursion on peer controlled nesting (call-graph cycle check, shared with C11-R7); R3 every loop driven by peer data in '
     'the decoders strictly consumes the remaining size; R4 (buffer rules) peer-controlled buffers are indexed, popped or '
-    'destructured only behind a length guard or inside a handler for the implied exception; R5 fixed-size reads (struct.unpack_from / unpack / index) in the LLCP PDU and TLV decoders are inside the checked window or in a handler that converts struct.error / IndexError to DecodeError.  Liveness of all threads after '
+    'destructured only behind a length guard or inside a handler for the implied exception; R5 fixed-size reads (struct.unpack_from / unpack / index) in the LLCP PDU and TLV decoders are inside the checked window or in a handler that converts struct.error / IndexError to DecodeError; Parameter.decode is folded by the checker for every type code and value length (value complete, cut short, limited by size) and either returns or raises DecodeError.  Liveness of all threads after '
     'the input and hangs inside blocking driver calls are not decided.')
 
 LLC = 'nfc.llcp.llc.LogicalLinkController'
